@@ -256,6 +256,58 @@ theorem inplace_truncated (fs0 : FS) (new : Bytes) (t : Path) (k : Nat) (hk : k 
   simp only [views, List.mem_map, List.mem_range]
   exact ⟨k, by simp [step, upd]; omega, by simp [step, upd]⟩
 
+/-! ### a single failing operation (fault injection) -/
+
+/-- the repaired `_save_file` when `os.replace` (or any earlier step) raises: what was done
+    up to the fault, then only the temp file is closed and removed -/
+def failedRenameTrace (tmp : Path) (new : Bytes) : List Op :=
+  [.openTrunc tmp, .write tmp new, .flush tmp, .fsync tmp, .close tmp, .unlink tmp]
+
+/-- **C15 with a failing rename (or earlier fault): clean-up only.**  Every prefix-closed
+    variant of the repaired sequence that ends with temp-file clean-up instead of the rename
+    leaves the OLD content at every crash point. -/
+theorem failed_rename_cleanup_old (fs0 : FS) (old : Option Bytes) (new : Bytes) (tmp t : Path)
+    (hne : tmp ≠ t) (hold : fs0.disk t = old) (hpend : fs0.pend t = []) :
+    ∀ c ∈ crashTargets fs0 (failedRenameTrace tmp new) t, c = old := by
+  apply untouched_old fs0 old _ t hold hpend
+  intro op hop
+  simp only [failedRenameTrace, List.mem_cons, List.not_mem_nil, or_false] at hop
+  rcases hop with rfl | rfl | rfl | rfl | rfl | rfl <;> simp [touches, hne]
+
+/-- **Any fallback that truncates the target in place is unsafe**, wherever it occurs in the
+    trace (e.g. after a failed rename): a trace containing `openTrunc target` has a crash
+    point at which the target is the empty file — for all traces and file systems. -/
+theorem openTrunc_exposes_empty (fs0 : FS) (tr : List Op) (t : Path)
+    (h : Op.openTrunc t ∈ tr) : some [] ∈ crashTargets fs0 tr t := by
+  obtain ⟨pre, post, rfl⟩ := List.append_of_mem h
+  apply mem_crashTargets_of_prefix _ t fs0 (pre ++ [Op.openTrunc t])
+  · exact ⟨post, by simp⟩
+  · have : run fs0 (pre ++ [Op.openTrunc t]) = step (run fs0 pre) (Op.openTrunc t) := by
+      simp [run, List.foldl_append]
+    rw [this]
+    simp [views, step, upd]
+
+/-- hence such a trace is never of the safe shape when old and new are non-empty files -/
+theorem openTrunc_not_safe (fs0 : FS) (old new : Bytes) (tr : List Op) (t : Path)
+    (hold : fs0.disk t = some old) (hpend : fs0.pend t = []) (ho : old ≠ []) (hn : new ≠ [])
+    (h : Op.openTrunc t ∈ tr) : ¬ SafeSave fs0 new tr t := by
+  intro hs
+  rcases safe_atomic fs0 (some old) new tr t hold hpend hs _ (openTrunc_exposes_empty fs0 tr t h) with h | h
+  · exact ho (by simpa using h.symm)
+  · exact hn (by simpa using h.symm)
+
+/-- the fallback of seeded change "write directly when os.replace fails": failed rename, then
+    truncate-and-rewrite of the target -/
+example : some [] ∈ crashTargets (initFS "conf" (some [1, 2, 3]))
+    [.openTrunc "tmp", .write "tmp" [9, 8], .flush "tmp", .fsync "tmp", .close "tmp",
+     .openTrunc "conf", .write "conf" [9, 8], .flush "conf", .fsync "conf", .close "conf",
+     .unlink "tmp"] "conf" :=
+  openTrunc_exposes_empty _ _ _ (by decide)
+
+example : ∀ c ∈ crashTargets (initFS "conf" (some [1, 2, 3])) (failedRenameTrace "conf.tmp1" [9, 8]) "conf",
+    c = some [1, 2, 3] :=
+  failed_rename_cleanup_old _ _ _ _ _ (by decide) (by simp [initFS]) rfl
+
 /-- the driver prints `crashGroups`; flattened it is exactly `crashTargets` -/
 theorem crashGroups_flatten (tr : List Op) (t : Path) : ∀ fs : FS,
     (crashGroups fs tr t).flatten = crashTargets fs tr t := by
